@@ -228,7 +228,11 @@ func (e *Env) pkgObject(pkg *types.Package, name string) (Val, bool) {
 			return Val{}, false
 		}
 		if id, ok := e.r.W.Sentinels[g]; ok {
-			return Val{K: KIface, T: c.Type(), Tag: fmt.Sprint(e.r.W.tagFor(types.NewPointer(types.Typ[types.Invalid]))), Pay: sx("obj", sInt(int64(-1000000-id)))}, true
+			tagT := types.Type(types.NewPointer(types.Typ[types.Invalid]))
+			if dt := e.r.W.SentinelType[g]; dt != nil {
+				tagT = dt
+			}
+			return Val{K: KIface, T: c.Type(), Tag: fmt.Sprint(e.r.W.tagFor(tagT)), Pay: sx("obj", sInt(int64(-1000000-id)))}, true
 		}
 		if cv, ok := e.r.constGlobal(e.st, g, c.Type()); ok {
 			return cv, true
@@ -1056,6 +1060,10 @@ func (e *Env) evalCall(n *ast.CallExpr) Val {
 		pr := p.S
 		if p.K == KIface {
 			pr = p.Pay
+		}
+		if p.K == KRef && p.T != nil && derefType(p.T) != nil && e.r.noBind == 0 {
+			// field types of the object: a slice base can only be one of its array-typed fields
+			e.r.assumeFieldTypes(e.st, pr, derefType(p.T), 0)
 		}
 		return boolVal(sNot(sx("withineq", xr, pr)))
 	case "unchanged":
